@@ -14,3 +14,5 @@ import NimaVerif.Props.C06
 #print axioms Nima.C06.line_comment_fixed_point
 #print axioms Nima.C06.cex_inline_multiline_block_drift
 #print axioms Nima.C06.inline_block_fixed_point_partial
+#print axioms Nima.C06.cex_comment_around_semicolon
+#print axioms Nima.C06.frag_second_pass_tokens
